@@ -32,3 +32,46 @@ def explore(tier, seed, n):
     res["mism"] = mism + res["mism"]
     res["n_ops"] += n_ops
     return res
+
+# --- enumeration of h_max = floor(n / H_n): the real constructor against exact rational arithmetic and the driver
+_explore2 = explore
+
+
+def hmax_sweep(tier):
+    from fractions import Fraction
+    from framework import Case
+    from common import fbits
+    from PyXAB.algos.SequOOL import SequOOL
+    from PyXAB.partition.BinaryPartition import BinaryPartition
+    c = Case("sequool-hmax-sweep", {"gen": "sequool-hmax", "kind": "binary", "ops": "sweep"})
+    H = Fraction(0)
+    top = 1200 if tier == "quick" else 4000
+    checked = 0
+    for n in range(1, top + 1):
+        H += Fraction(1, n)
+        if n < 10:
+            continue
+        q = Fraction(n) / H
+        a = SequOOL(n=n, domain=[[0.0, 1.0]], partition=BinaryPartition)
+        checked += 1
+        if a.h_max != q.numerator // q.denominator:
+            c.fail("C12", "h_max", f"n={n}: h_max={a.h_max}, floor(n/H_n)={q.numerator // q.denominator}", algo="SequOOL", n=n)
+            if len(c.monitor) > 5:
+                break
+        if n % 9 == 0 or a.h_max != q.numerator // q.denominator:
+            c.op(f"SequOOL.init binary 0 1 {fbits(0.0)} {fbits(1.0)} {n} {a.h_max}", "ok")
+    c.meta["n_checked"] = checked
+    c.tags[f"hmax-sweep-checked={checked}"] += 1
+    return c
+
+
+def explore(tier, seed, n):
+    import framework as fw
+    res = _explore2(tier, seed, n)
+    sw = hmax_sweep(tier)
+    mism, n_ops = fw.compare([sw])
+    res["cases"] = [sw] + res["cases"]
+    res["mism"] = mism + res["mism"]
+    res["n_ops"] += n_ops
+    res.setdefault("extra", {})["hmax_values_enumerated"] = sw.meta["n_checked"]
+    return res
